@@ -12,10 +12,10 @@ use serial_core::{BaudRate, CharSize, ErrorKind, FlowControl, Parity, PortSettin
 use crate::engine::{catch, par_range, Ctx, Stats};
 use crate::io::port::{PortState, TestPort};
 
-pub const RULE: &str = "the full product of prior port settings representable by PortSettings (11 standard baud rates + BaudOther(0), BaudOther(19200), BaudOther(250000); 4 character sizes; 3 parities; 2 stop-bit settings; 3 flow controls = 1008 combinations) x entry point {configure_port with 4 timeouts, SerialSignBus::try_new, Odk::try_new} x injected failure {none, read_settings, set_baud_rate, write_settings, set_timeout} x {permanent, only the first such call} x 6 error kinds (incl. Interrupted / WouldBlock / TimedOut), also with a settings object that reports no baud rate; enumerated exhaustively on an instrumented SerialDevice. Oracle: on success the final settings are exactly 19200/8/N/1/none and a timeout was applied (the caller's value for configure_port, any non-zero value for the constructors); whenever the port actually refused a call the entry point returns Err of that kind (a failure point that the implementation never reaches counts as no failure). Non-trivial = the prior settings differ from the target in at least one field, or a failure is injected; distinct by construction";
+pub const RULE: &str = "the full product of prior port settings representable by PortSettings (11 standard baud rates + BaudOther of 0, 19200, 250000, 19199, 19201, 19231, 18816, 19584, 4000000, usize::MAX; 4 character sizes; 3 parities; 2 stop-bit settings; 3 flow controls = 1512 combinations) x entry point {configure_port with 9 timeouts from 0 ms to u64::MAX ms, SerialSignBus::try_new, Odk::try_new} x injected failure {none, read_settings, set_baud_rate, write_settings, set_timeout} x {permanent, only the first such call} x 6 error kinds (incl. Interrupted / WouldBlock / TimedOut), also with a settings object that reports no baud rate; enumerated exhaustively on an instrumented SerialDevice. Oracle: on success the final settings are exactly 19200/8/N/1/none and a timeout was applied (the caller's value for configure_port, any non-zero value for the constructors); whenever the port actually refused a call the entry point returns Err of that kind (a failure point that the implementation never reaches counts as no failure). Non-trivial = the prior settings differ from the target in at least one field, or a failure is injected; distinct by construction";
 pub const ASSUMPTIONS: &[&str] = &["the instrumented SerialDevice (io/port.rs) records settings and timeouts faithfully; serial-core's blanket SerialPort::reconfigure is the code path flipdot uses"];
 
-const BAUDS: [BaudRate; 14] = [
+const BAUDS: [BaudRate; 21] = [
     BaudRate::Baud110,
     BaudRate::Baud300,
     BaudRate::Baud600,
@@ -30,6 +30,14 @@ const BAUDS: [BaudRate; 14] = [
     BaudRate::BaudOther(0),
     BaudRate::BaudOther(19200),
     BaudRate::BaudOther(250000),
+    // non-standard rates next to the target (what an adapter that reports its achieved rate shows) and far from it
+    BaudRate::BaudOther(19199),
+    BaudRate::BaudOther(19201),
+    BaudRate::BaudOther(19231),
+    BaudRate::BaudOther(18816),
+    BaudRate::BaudOther(19584),
+    BaudRate::BaudOther(4_000_000),
+    BaudRate::BaudOther(usize::MAX),
 ];
 const SIZES: [CharSize; 4] = [CharSize::Bits5, CharSize::Bits6, CharSize::Bits7, CharSize::Bits8];
 const PARITIES: [Parity; 3] = [Parity::ParityNone, Parity::ParityOdd, Parity::ParityEven];
@@ -43,7 +51,8 @@ const KINDS: [ErrorKind; 6] = [
     ErrorKind::Io(std::io::ErrorKind::WouldBlock),
     ErrorKind::Io(std::io::ErrorKind::TimedOut),
 ];
-const TIMEOUTS_MS: [u64; 4] = [1, 250, 5_000, 3_600_000];
+// (incl. zero, and values beyond what fits a 32-bit millisecond count: the caller's value is applied as given)
+const TIMEOUTS_MS: [u64; 9] = [0, 1, 250, 5_000, 3_600_000, 2_147_483_647, 2_147_483_648, 2_592_000_000, u64::MAX];
 
 #[derive(Serialize, Deserialize, Debug, Clone, PartialEq, Eq)]
 pub struct PortCase {
@@ -82,7 +91,7 @@ fn target() -> PortSettings {
 
 pub fn check_port(c: &PortCase, st: &mut Stats) -> Result<(), String> {
     let prior = PortSettings {
-        baud_rate: BAUDS[c.prior[0] % 14],
+        baud_rate: BAUDS[c.prior[0] % BAUDS.len()],
         char_size: SIZES[c.prior[1] % 4],
         parity: PARITIES[c.prior[2] % 3],
         stop_bits: STOPS[c.prior[3] % 2],
@@ -156,7 +165,7 @@ pub fn check_port(c: &PortCase, st: &mut Stats) -> Result<(), String> {
         }
     }
     if st.want_sample() && prior != target() && c.prior[0] > 10 {
-        st.sample(json!({"prior": format!("{prior:?}"), "entry": name, "timeout_ms": c.timeout_ms, "fail": c.fail, "timeouts_applied": s.timeouts_set.iter().map(|d| d.as_millis() as u64).collect::<Vec<_>>(), "settings_writes": s.settings_writes.len()}));
+        st.sample(json!({"prior": format!("{prior:?}"), "entry": name, "timeout_ms": c.timeout_ms, "fail": c.fail, "timeouts_applied": s.timeouts_set.iter().map(|d| d.as_millis().min(u64::MAX as u128) as u64).collect::<Vec<_>>(), "settings_writes": s.settings_writes.len()}));
     }
     Ok(())
 }
@@ -168,11 +177,11 @@ pub fn run(ctx: &Ctx) {
 }
 
 fn run_product(ctx: &Ctx, part: &str) {
-    let n_prior = 14 * 4 * 3 * 2 * 3;
+    let n_prior = BAUDS.len() * 4 * 3 * 2 * 3;
     par_range(ctx, part, n_prior as u64, |i, st| {
         let mut k = i as usize;
         let mut prior = [0usize; 5];
-        for (slot, base) in prior.iter_mut().zip([14usize, 4, 3, 2, 3]) {
+        for (slot, base) in prior.iter_mut().zip([BAUDS.len(), 4, 3, 2, 3]) {
             *slot = k % base;
             k /= base;
         }
